@@ -41,6 +41,15 @@ use crate::{
     codec::{Cookie, ErrorCode, Message, Namespace, NewRegistration, Registration, Ttl},
 };
 
+// Verification build: timers of this module run on the harness virtual clock.
+#[cfg(libp2p_verif)]
+use libp2p_swarm::verif_delay as futures_timer;
+
+#[cfg(libp2p_verif)]
+#[doc(hidden)]
+#[path = "verif_proto_b.rs"]
+pub mod verif_proto_b;
+
 /// Default maximum active registrations per peer.
 pub const MAX_REGISTRATION_PEER: usize = 32;
 /// Default maximum active registrations in total.
